@@ -7,7 +7,7 @@ Time unit: 1 tick = 1/1024 s (all times are dyadic rationals, so Twisted's float
 The harness applies stimuli and records effects; it holds no expected values.
 """
 import sys, json, math
-sys.path.insert(0, '/repo/src')
+sys.path.insert(0, __import__('os').environ.get('MQTT_SRC', '/repo/src'))
 from twisted.internet.main import installReactor
 from twisted.internet import error
 from twisted.internet.base import DelayedCall
